@@ -5,6 +5,7 @@
 #include "Simplex.h"
 
 #include <common/InternalException.h>
+#include <common/VerifSim.h>
 
 #include <algorithm>
 #include <limits>
@@ -45,6 +46,7 @@ Simplex::Explanation Simplex::checkSimplex() {
         LVRef x = LVRef::Undef;
 
         if (!bland_rule && (repeats > tableau.getNumOfCols())) bland_rule = true;
+        if (!bland_rule && OSMT_SIM_UNUSUAL(opensmt::verifsim::US_BLAND) == 1) bland_rule = true;
 
         if (bland_rule) {
             x = getBasicVarToFixByBland();
